@@ -158,14 +158,26 @@ class Ctx:
         return sid
 
 
-class Victim:
-    def __init__(self, proto, role, logger, wt, prefix):
+_SHARE_MODULES = ("aioquic._crypto", "aioquic._buffer", "cryptography", "_cffi_backend", "pylsqpack", "OpenSSL", "logging",
+                  "_thread", "service_identity", "_io")
+
+
+class Base:
+    """One genuine handshake per batch.  Every case gets a private deep copy of the connected
+    QuicConnection (C-level cipher objects, keys and the configuration are shared by reference; they
+    are not mutated) and of the wire tap, so no state leaks between cases.  os.fork() per case would
+    give the same isolation but costs 100+ ms here when the machine is busy."""
+
+    def __init__(self, proto, role, logger):
+        import gc
+        import types
+
         from aioquic.quic.connection import QuicConnection
 
         from ..puppet import HandshakePair
         from ..refwire import Tap
 
-        self.proto, self.role, self.logger, self.prefix = proto, role, logger, prefix
+        self.proto, self.role, self.logger = proto, role, logger
         pair = HandshakePair(opts={"alpn": ["h3"] if proto == "h3" else ["hq-interop"]})
         if logger:
             from aioquic.quic.logger import QuicLogger
@@ -175,17 +187,69 @@ class Victim:
             pair.client = QuicConnection(configuration=pair.ccfg)
         pair.complete()
         self.pair = pair
-        self.quic = pair.server if role == "server" else pair.client
-        if not self.quic._handshake_confirmed:
+        self.quic0 = pair.server if role == "server" else pair.client
+        if not self.quic0._handshake_confirmed:
             raise RuntimeError("handshake not confirmed on the victim")
+        if (self.quic0._quic_logger is not None) != logger:
+            raise RuntimeError("logger option did not take effect")
+        if self.quic0._quic_logger is not None:
+            self.quic0._quic_logger._events.clear()  # what the handshake logged is irrelevant here; keeps copies small
         self.now = pair.now
-        self.tap = Tap({"client": pair.ccfg.connection_id_length, "server": pair.scfg.connection_id_length})
-        self.tap.add_keylog(pair.keylog.getvalue())
-        self.tap.initial_dcids.append(pair.client_odcid)
-        self.tap.client_odcid = pair.client_odcid
+        tap = Tap({"client": pair.ccfg.connection_id_length, "server": pair.scfg.connection_id_length})
+        tap.add_keylog(pair.keylog.getvalue())
+        tap.initial_dcids.append(pair.client_odcid)
+        tap.client_odcid = pair.client_odcid
         for sender, data in pair.wire:
-            self.tap.on_datagram(sender, data, 0.0)
-        self.tap.packets.clear()
+            tap.on_datagram(sender, data, 0.0)
+        tap.packets.clear()
+        self.tap0 = tap
+        # objects shared between copies
+        self.shared = []
+        seen = set()
+        stack = [self.quic0, self.tap0]
+        skip = (type, types.ModuleType, types.FunctionType, types.BuiltinFunctionType, types.CodeType)
+        while stack:
+            o = stack.pop()
+            if id(o) in seen or isinstance(o, skip):
+                continue
+            seen.add(id(o))
+            if type(o).__module__.startswith(_SHARE_MODULES):
+                self.shared.append(o)
+                continue
+            stack.extend(gc.get_referents(o))
+        self.selftest()
+
+    def clone(self):
+        import copy
+
+        memo = {id(o): o for o in self.shared}
+        quic, tap = copy.deepcopy((self.quic0, self.tap0), memo)
+        return quic, tap
+
+    def selftest(self):
+        """The copy must behave like the original: close it and read the close frame with the tap."""
+        quic, tap = self.clone()
+        if quic is self.quic0 or quic._loss is self.quic0._loss or quic._cryptos is self.quic0._cryptos:
+            raise RuntimeError("harness: clone shares mutable state")
+        quic.close(error_code=0x100, reason_phrase="selftest")
+        seen = []
+        for data, _ in quic.datagrams_to_send(now=self.now):
+            for v in tap.on_datagram(self.role, data, self.now):
+                if v.error:
+                    raise RuntimeError("harness: tap cannot read the clone's packets: %s" % v.error)
+                seen += [(f["name"], f.get("error_code")) for f in v.frames]
+        if ("CONNECTION_CLOSE_APP", 0x100) not in seen:
+            raise RuntimeError("harness: clone self-test saw %r" % (seen,))
+        if self.quic0._close_event is not None or self.quic0._close_pending:
+            raise RuntimeError("harness: clone self-test touched the original")
+
+
+class Victim:
+    def __init__(self, base, wt, prefix):
+        self.base = base
+        self.proto, self.role, self.logger, self.prefix = base.proto, base.role, base.logger, prefix
+        self.quic, self.tap = base.clone()
+        self.now = base.now
         # observe the layer's close() calls from outside
         self.close_calls = []
         orig_close = self.quic.close
@@ -195,7 +259,7 @@ class Victim:
             return orig_close(*a, **kw)
 
         self.quic.close = spy_close
-        if proto == "h3":
+        if self.proto == "h3":
             from aioquic.h3.connection import H3Connection
 
             self.http = H3Connection(self.quic, enable_webtransport=wt)
@@ -419,8 +483,6 @@ def apply_prefix(vic):
             break
     vic.prefix_events = vic.http_events
     vic.prefix_closed = bool(vic.close_calls)
-    # let the transport flush what the layer queued (SETTINGS, QPACK streams, requests)
-    vic.drive(steps=2)
 
 
 # ---------------------------------------------------------------------------- chunking
@@ -487,18 +549,27 @@ def chunk_events(segs, mode, cseed):
 # ---------------------------------------------------------------------------- one case (runs in a forked child)
 
 
-def exec_case(vic, case):
+def exec_case(base, wt, prefix, case):
+    """Fresh copy of the connection, fresh HTTP layer, valid prefix, hostile bytes, transport drive."""
     from .. import c16_gen as G
 
+    vic = Victim(base, wt, prefix)
+    apply_prefix(vic)
+    prefix_viol = len(vic.violations)
+    for v in vic.violations:
+        v["signature"] += ":in-valid-prefix"
+    prefix_ok = not (vic.prefix_closed or vic.raised or (
+        prefix != "fresh" and vic.prefix_events == 0 and prefix not in ("ctrl", "req_blocked")))
     ctx = vic.ctx
     base_events = vic.http_events
-    segs, label = G.build(case, ctx)
-    events = chunk_events(segs, case.get("chunk", "whole"), case.get("cseed", 0))
-    for slot, data, fin in events:
-        if slot != "dgram" and slot in ctx.finished:
-            continue  # a composition placed data after FIN: not deliverable by a transport
-        if not vic.feed(slot, data, fin):
-            break
+    segs, label = G.build(case, ctx) if case is not None else ([], ("-", "-"))
+    events = chunk_events(segs, case.get("chunk", "whole"), case.get("cseed", 0)) if case is not None else []
+    if not vic.raised:
+        for slot, data, fin in events:
+            if slot != "dgram" and slot in ctx.finished:
+                continue  # a composition placed data after FIN: not deliverable by a transport
+            if not vic.feed(slot, data, fin):
+                break
     views = vic.drive()
     closed = vic.check_close(views)
     if closed and not vic.raised:
@@ -522,28 +593,35 @@ def exec_case(vic, case):
     else:
         outcome = "ignored"
     return {"label": list(label), "outcome": outcome, "viol": vic.violations, "counters": vic.counters,
-            "n_events": len(events), "bytes": sum(len(s[1]) for s in segs)}
+            "n_events": len(events), "bytes": sum(len(s[1]) for s in segs), "prefix_ok": prefix_ok,
+            "prefix_events": vic.prefix_events, "prefix_viol": prefix_viol}
 
 
-def fork_case(vic, case):
-    """Run exec_case in a forked copy of the prepared state. -> (dict | None, death signal | None)"""
+def _dumps(out):
+    return json.dumps(out, default=lambda o: o.hex() if isinstance(o, (bytes, bytearray)) else repr(o)).encode()
+
+
+def fork_group(base, wt, prefix, cases):
+    """Run cases one after the other in ONE forked child (each on its own copy of the connection);
+    results stream back line by line so that a signal death is attributed to the case in progress.
+    -> (list of result dicts for the completed cases, death signal | None)"""
     r, w = os.pipe()
     pid = os.fork()
     if pid == 0:
         code = 0
         try:
             os.close(r)
-            signal.alarm(CASE_ALARM)
-            vic.violations = []
-            vic.counters = {}
-            try:
-                out = exec_case(vic, case)
-            except BaseException:
-                out = {"harness_error": traceback.format_exc()[-3000:]}
-            data = json.dumps(out, default=lambda o: o.hex() if isinstance(o, (bytes, bytearray)) else repr(o)).encode()
-            pos = 0
-            while pos < len(data):
-                pos += os.write(w, data[pos:pos + 65536])
+            for case in cases:
+                signal.alarm(CASE_ALARM)
+                try:
+                    out = exec_case(base, wt, prefix, case)
+                except BaseException:
+                    out = {"harness_error": traceback.format_exc()[-3000:]}
+                data = _dumps(out) + b"\n"
+                pos = 0
+                while pos < len(data):
+                    pos += os.write(w, data[pos:pos + 65536])
+            signal.alarm(0)
         except BaseException:
             code = 3
         finally:
@@ -557,11 +635,12 @@ def fork_case(vic, case):
         buf += b
     os.close(r)
     _, status = os.waitpid(pid, 0)
+    outs = [json.loads(line) for line in bytes(buf).split(b"\n") if line.strip() and line.endswith(b"}")]
     if os.WIFSIGNALED(status):
-        return None, os.WTERMSIG(status)
-    if not buf:
-        return {"harness_error": "forked case produced no output (exit %r)" % (status,)}, None
-    return json.loads(buf.decode()), None
+        return outs, os.WTERMSIG(status)
+    if len(outs) != len(cases):
+        raise RuntimeError("forked group returned %d of %d results (status %r)" % (len(outs), len(cases), status))
+    return outs, None
 
 
 # ---------------------------------------------------------------------------- batch
@@ -599,61 +678,98 @@ def _select_cases(batch):
     return [c for i, c in enumerate(picked) if i % batch["parts"] == batch["part"]]
 
 
+GROUP = 120
+
+
+class _CaseAlarm(BaseException):
+    pass
+
+
+def _on_alarm(signum, frame):
+    raise _CaseAlarm()
+
+
 def run_batch(batch):
     res = Result()
     proto, role, logger, prefix = batch["proto"], batch["role"], bool(batch["logger"]), batch["prefix"]
     wt = bool(batch.get("wt"))
     cases = _select_cases(batch)
-    vic = Victim(proto, role, logger, wt, prefix)
-    apply_prefix(vic)
+    base = Base(proto, role, logger)
+    res.count("connections_prepared")
 
     def replay_case(case_list):
         return {"gen": "replay", "proto": proto, "role": role, "logger": logger, "prefix": prefix, "wt": wt, "cases": case_list}
 
-    for k, v in vic.counters.items():
-        res.count(k, v)
-    for v in vic.violations:
-        res.violation(v["signature"] + ":in-valid-prefix", v["what"], replay_case([]), v["witness"])
-    res.count("prefix_http_events", vic.prefix_events)
-    if vic.prefix_closed:
-        res.count("prefix_closed_the_connection")
-    if prefix != "fresh" and (vic.prefix_closed or vic.raised or (vic.prefix_events == 0 and prefix not in ("ctrl", "req_blocked"))):
-        # the valid prefix is supposed to be accepted; otherwise the batch explores nothing useful
-        res.inconclusive.append("prefix %s/%s/%s did not establish the intended state (events=%d closed=%s raised=%s)" % (
-            proto, role, prefix, vic.prefix_events, vic.prefix_closed, vic.raised))
-    vic.violations = []
-    vic.counters = {}
+    if not cases:  # replay of a violation inside the valid prefix
+        cases = [None]
+    todo = list(cases)
+    bad_prefix = 0
+    # A forked child runs ~10x slower here (copy-on-write faults), so cases normally run in this process, each on its own
+    # deep copy of the connection; a crash of the C QPACK code then kills the batch process, which the runner reports as a
+    # signal violation for the batch (SIGNAL_IS_VIOLATION). Replays fork per case so that a crash is attributed exactly.
+    use_fork = batch["gen"] == "replay" or bool(os.environ.get("VF_C16_FORK"))
+    if not use_fork:
+        import faulthandler
 
-    for case in cases:
-        out, sig = fork_case(vic, case)
-        if out is None:
-            name = signal.Signals(sig).name if sig in [s.value for s in signal.Signals] else str(sig)
+        faulthandler.enable()
+        signal.signal(signal.SIGALRM, _on_alarm)
+    while todo:
+        g = 1 if batch["gen"] == "replay" else GROUP
+        group, todo = todo[:g], todo[g:]
+        if use_fork:
+            outs, sig = fork_group(base, wt, prefix, group)
+        else:
+            outs, sig = [], None
+            for c in group:
+                signal.alarm(CASE_ALARM)
+                try:
+                    outs.append(exec_case(base, wt, prefix, c))
+                except _CaseAlarm:
+                    res.inconclusive.append("case %r: exceeded the %d s alarm" % (c, CASE_ALARM))
+                    outs.append(None)
+                finally:
+                    signal.alarm(0)
+        if sig is not None:
+            culprit = group[len(outs)]
+            todo = group[len(outs) + 1:] + todo
+            name = signal.Signals(sig).name if sig in [x.value for x in signal.Signals] else str(sig)
             if sig == signal.SIGALRM:
-                res.inconclusive.append("case %r: exceeded %d s alarm" % (case, CASE_ALARM))
+                res.inconclusive.append("case %r: exceeded the %d s alarm" % (culprit, CASE_ALARM))
+            else:
+                res.evaluations += 1
+                res.count("hist|%s|%s|%s|%s|%s|%s" % (proto, role, "-", (culprit or {}).get("fam", "prefix"), prefix, "signal"))
+                res.violation("signal:%s:%s-%s" % (name, proto, (culprit or {}).get("fam", "prefix")),
+                              "process died on %s while the HTTP layer handled peer bytes" % name,
+                              replay_case([culprit] if culprit else []), {"case": culprit})
+        for case, out in zip(group, outs):
+            if out is None:
                 continue
+            if out.get("harness_error"):
+                raise RuntimeError("case %r: %s" % (case, out["harness_error"]))
             res.evaluations += 1
-            res.violation("signal:%s:%s-%s" % (name, proto, case["fam"]), "forked case died on %s" % name, replay_case([case]),
-                          {"case": case})
-            continue
-        if out.get("harness_error"):
-            raise RuntimeError("case %r: %s" % (case, out["harness_error"]))
-        res.evaluations += 1
-        sk, fk = out["label"]
-        outcome = out["outcome"]
-        res.count("hist|%s|%s|%s|%s|%s|%s" % (proto, role, sk, fk, prefix, outcome))
-        res.count("cases_%s" % proto)
-        res.count("cases_logger_on" if logger else "cases_logger_off")
-        res.count("cases_chunk_%s" % case.get("chunk", "whole"))
-        res.count("events_synthesised", out["n_events"])
-        res.count("hostile_bytes", out["bytes"])
-        for k, v in out["counters"].items():
-            res.count(k, v)
-        if outcome != "ignored":
-            oc = "closed" if outcome.startswith("closed") else outcome
-            res.nontrivial.add("%s|%s|%s|%s|%s|%s" % (proto, role, sk, fk, prefix, outcome if oc == "closed" else oc))
-        for v in out["viol"]:
-            res.violation(v["signature"], v["what"], replay_case([case]), v["witness"])
-        if outcome != "ignored":
-            res.sample({"proto": proto, "role": role, "prefix": prefix, "logger": logger, "case": case, "label": out["label"],
-                        "outcome": outcome, "events": out["n_events"], "bytes": out["bytes"]}, limit=2)
+            sk, fk = out["label"]
+            outcome = out["outcome"]
+            res.count("hist|%s|%s|%s|%s|%s|%s" % (proto, role, sk, fk, prefix, outcome))
+            res.count("cases_%s" % proto)
+            res.count("cases_logger_on" if logger else "cases_logger_off")
+            res.count("cases_chunk_%s" % (case or {}).get("chunk", "whole"))
+            res.count("events_synthesised", out["n_events"])
+            res.count("hostile_bytes", out["bytes"])
+            res.count("prefix_http_events", out["prefix_events"])
+            if not out["prefix_ok"]:
+                bad_prefix += 1
+            for k, v in out["counters"].items():
+                res.count(k, v)
+            if outcome != "ignored":
+                res.nontrivial.add("%s|%s|%s|%s|%s|%s" % (proto, role, sk, fk, prefix, outcome))
+            for i, v in enumerate(out["viol"]):
+                res.violation(v["signature"], v["what"], replay_case([] if i < out["prefix_viol"] else [case]), v["witness"])
+            if outcome != "ignored":
+                res.sample({"proto": proto, "role": role, "prefix": prefix, "logger": logger, "case": case, "label": out["label"],
+                            "outcome": outcome, "events": out["n_events"], "bytes": out["bytes"]}, limit=2)
+    if bad_prefix:
+        # the valid prefix is supposed to be accepted; otherwise the batch explores less than it claims
+        res.count("prefix_not_established", bad_prefix)
+        if not any(":in-valid-prefix" in v["signature"] for v in res.violations):
+            res.inconclusive.append("prefix %s/%s/%s did not establish the intended state in %d cases" % (proto, role, prefix, bad_prefix))
     return res.as_dict()
